@@ -1,9 +1,155 @@
 import WM.Proto
-namespace WM.Drv.C02
-open WM.Proto
+import WM.Model.FS
+/-!
+Protocol handler of family `c02` (commit protocol, recovery, clean-up, name patterns).
 
-/-- Protocol handler of family `c02` (requests arrive without the family token). -/
+Names travel as lists of code points.  Inside one request a *name table* is sent once and the
+directory / TOCs / events refer to names by index:
+
+  toc    ::= ( gen schema ( (sidIdx (fileIdx*) (deleted*))* ) )
+  fs     ::= ( (nameIdx c|t|w len toc|-)* )
+  event  ::= (c n) | (w n k) | (t n toc) | (x n) | (r a b) | (d n) | (o)
+-/
+namespace WM.Drv.C02
+open WM.Proto WM.FS
+
+def name? (e : SExp) : Option Name := (e.natList?).map fun cs => cs.map Char.ofNat
+
+def showName (n : Name) : String := showNatList (n.map Char.toNat)
+
+abbrev Tab := Array Name
+
+def tab? (e : SExp) : Option Tab := (e.listOf? name?).map List.toArray
+
+def idx? (tab : Tab) (e : SExp) : Option Name := do
+  let i ← e.nat?
+  tab[i]?
+
+def seg? (tab : Tab) : SExp → Option SegRef
+  | .list [s, fs, ds] => do
+    let sid ← idx? tab s
+    let files ← fs.listOf? (idx? tab)
+    let del ← ds.natList?
+    some ⟨sid, files, del⟩
+  | _ => none
+
+def toc? (tab : Tab) : SExp → Option Toc
+  | .list [g, sc, segs] => do
+    let gen ← g.nat?
+    let schema ← sc.nat?
+    let ss ← segs.listOf? (seg? tab)
+    some ⟨gen, schema, ss⟩
+  | _ => none
+
+def emptyFS : FS := ⟨[], fun _ => none, fun _ => ⟨0, .torn, none⟩, 0⟩
+
+def addFile (fs : FS) (n : Name) (d : FileData) : FS :=
+  { names := n :: fs.names
+    dir := fun m => if m = n then some fs.next else fs.dir m
+    data := fun j => if j = fs.next then d else fs.data j
+    next := fs.next + 1 }
+
+def fsEntry? (tab : Tab) : SExp → Option (Name × FileData)
+  | .list [n, .atom st, len, t] => do
+    let nm ← idx? tab n
+    let l ← len.nat?
+    let stt ← match st with
+      | "c" => some FStat.complete
+      | "t" => some FStat.torn
+      | "w" => some FStat.writing
+      | _ => none
+    let tc ← t.opt? (toc? tab)
+    some (nm, ⟨l, stt, tc⟩)
+  | _ => none
+
+def fs? (tab : Tab) (e : SExp) : Option FS := do
+  let es ← e.listOf? (fsEntry? tab)
+  some (es.foldl (fun fs (p : Name × FileData) => addFile fs p.1 p.2) emptyFS)
+
+def event? (tab : Tab) : SExp → Option Event
+  | .list [.atom "c", n] => (idx? tab n).map .create
+  | .list [.atom "w", n, k] => do some (.write (← idx? tab n) (← k.nat?))
+  | .list [.atom "t", n, t] => do some (.setToc (← idx? tab n) (← toc? tab t))
+  | .list [.atom "x", n] => (idx? tab n).map .close
+  | .list [.atom "r", a, b] => do some (.rename (← idx? tab a) (← idx? tab b))
+  | .list [.atom "d", n] => (idx? tab n).map .delete
+  | .list [.atom "o"] => some .other
+  | _ => none
+
+def trace? (tab : Tab) (e : SExp) : Option (List Event) := e.listOf? (event? tab)
+
+def showPhase : Phase → String
+  | .pre => "pre" | .tmpOpen => "tmpOpen" | .tmpClosed => "tmpClosed" | .post => "post"
+
+def showRec (ix : Name) (fs : FS) : String :=
+  match readToc ix fs with
+  | .ok t => s!"ok {t.gen} {showBool (readable fs t)}"
+  | .error .emptyIndex => "err empty"
+  | .error .ioError => "err io"
+  | .error .badToc => "err bad"
+
 def handle : List SExp → String
+  | [.atom "tocgen", ix, n] =>
+    match name? ix, name? n with
+    | some i, some m => showOpt toString (tocGen i m)
+    | _, _ => "bad-op"
+  | [.atom "segof", ix, n] =>
+    match name? ix, name? n with
+    | some i, some m => showOpt showName (segOf i m)
+    | _, _ => "bad-op"
+  | [.atom "tocname", ix, g] =>
+    match name? ix, g.nat? with
+    | some i, some k => showName (tocName i k)
+    | _, _ => "bad-op"
+  | [.atom "latest", ix, ns] =>
+    match name? ix, ns.listOf? name? with
+    | some i, some l => showOpt toString (latestGenOf i l)
+    | _, _ => "bad-op"
+  | [.atom "clean", ix, g, sids, ns] =>
+    match name? ix, g.nat?, sids.listOf? name?, ns.listOf? name? with
+    | some i, some k, some ss, some l => showList showName (cleanFiles i k ss l)
+    | _, _, _, _ => "bad-op"
+  -- commit protocol on a logged trace
+  | [.atom "commit", ix, tb, old, new, tmp, fs0, tr] =>
+    match name? ix, tab? tb with
+    | some i, some tab =>
+      match toc? tab old, toc? tab new, idx? tab tmp, fs? tab fs0, trace? tab tr with
+      | some o, some nw, some t, some fs, some es =>
+        match chkFail i o nw (some t) ⟨fs, .pre⟩ es 0 with
+        | some k => s!"fail {k}"
+        | none =>
+          match chkRun i o nw (some t) ⟨fs, .pre⟩ es with
+          | some c => s!"ok {showPhase c.phase} {showBool (CleansOrphans i nw fs es)}"
+          | none => "fail ?"
+      | _, _, _, _, _ => "bad-op"
+    | _, _ => "bad-op"
+  | [.atom "cancel", ix, tb, old, fs0, tr] =>
+    match name? ix, tab? tb with
+    | some i, some tab =>
+      match toc? tab old, fs? tab fs0, trace? tab tr with
+      | some o, some fs, some es =>
+        match chkFail i o o none ⟨fs, .pre⟩ es 0 with
+        | some k => s!"fail {k}"
+        | none => "ok"
+      | _, _, _ => "bad-op"
+    | _, _ => "bad-op"
+  -- model prediction of what a re-opened index sees after the first k events and a crash
+  | [.atom "recover", ix, tb, fs0, tr, ks] =>
+    match name? ix, tab? tb with
+    | some i, some tab =>
+      match fs? tab fs0, trace? tab tr, ks.natList? with
+      | some fs, some es, some kl =>
+        showList (fun k => "(" ++ showRec i (crash (run fs (es.take k)) fun _ => 0) ++ ")") kl
+      | _, _, _ => "bad-op"
+    | _, _ => "bad-op"
+  -- names left in the directory after the whole trace (for the orphan check)
+  | [.atom "final", ix, tb, fs0, tr] =>
+    match name? ix, tab? tb with
+    | some _, some tab =>
+      match fs? tab fs0, trace? tab tr with
+      | some fs, some es => showList showName (run fs es).listing.eraseDups
+      | _, _ => "bad-op"
+    | _, _ => "bad-op"
   | _ => "bad-op"
 
 end WM.Drv.C02
